@@ -8,7 +8,9 @@ import sys
 import time
 
 ROOT = "/verif"
-REPO = "/repo"
+# VERIF_REPO (development aid only): run against a scratch worktree instead of /repo, so that seeded
+# changes can be tried without touching /repo.  The registered commands never set it.
+REPO = os.environ.get("VERIF_REPO", "/repo")
 SPEC = os.path.join(ROOT, "spec")
 HARNESS = os.path.join(ROOT, "harness")
 GO = "go1.26.8"
@@ -59,14 +61,23 @@ def run(cmd, cwd=None, env=None, timeout=None, stdout=None):
 
 def build_go(work, pkg, out_name, test=True, race=True):
     """Build a harness binary from /repo's current working tree (tag verif)."""
-    shutil.copy(os.path.join(REPO, "go.sum"), os.path.join(HARNESS, "go.sum"))
+    hdir = HARNESS
+    if REPO != "/repo":
+        hdir = work.path("harness")
+        if not os.path.isdir(hdir):
+            shutil.copytree(HARNESS, hdir)
+            with open(os.path.join(hdir, "go.mod")) as f:
+                gm = f.read()
+            with open(os.path.join(hdir, "go.mod"), "w") as f:
+                f.write(gm.replace("=> /repo", "=> " + REPO))
+    shutil.copy(os.path.join(REPO, "go.sum"), os.path.join(hdir, "go.sum"))
     out = work.path(out_name)
     cmd = [GO, "test", "-c"] if test else [GO, "build"]
     cmd += ["-tags", "verif"]
     if race:
         cmd += ["-race"]
     cmd += ["-o", out, pkg]
-    r = run(cmd, cwd=HARNESS, env=GOENV, timeout=900)
+    r = run(cmd, cwd=hdir, env=GOENV, timeout=900)
     if r.returncode != 0 or not os.path.exists(out):
         raise Inconclusive("harness build failed:\n" + r.stdout[-3000:])
     return out
@@ -136,7 +147,13 @@ def open_findings(prop):
 # ---------------------------------------------------------------- evidence
 
 def write_evidence(prop, tier, cov, wall, violations, assumptions):
-    os.makedirs(os.path.join(ROOT, "evidence"), exist_ok=True)
+    if os.environ.get("VERIF_EVIDENCE_DIR"):      # development aid: keep /verif/evidence for runs against /repo
+        return _write_evidence(os.environ["VERIF_EVIDENCE_DIR"], prop, tier, cov, wall, violations, assumptions)
+    return _write_evidence(os.path.join(ROOT, "evidence"), prop, tier, cov, wall, violations, assumptions)
+
+
+def _write_evidence(edir, prop, tier, cov, wall, violations, assumptions):
+    os.makedirs(edir, exist_ok=True)
     cov.setdefault("states", 0)
     cov.setdefault("transitions", 0)
     cov.setdefault("traces_validated_against_impl", 0)
@@ -146,10 +163,10 @@ def write_evidence(prop, tier, cov, wall, violations, assumptions):
     ev = {"property_id": prop, "tier": tier, "seed": seed(), "level": "model_checking",
           "coverage": cov, "assumptions": assumptions, "wall_s": round(wall, 2),
           "violations": violations}
-    tmp = os.path.join(ROOT, "evidence", ".%s.%d.tmp" % (prop, os.getpid()))
+    tmp = os.path.join(edir, ".%s.%d.tmp" % (prop, os.getpid()))
     with open(tmp, "w") as f:
         json.dump(ev, f, indent=1, sort_keys=True)
-    os.replace(tmp, os.path.join(ROOT, "evidence", prop + ".json"))
+    os.replace(tmp, os.path.join(edir, prop + ".json"))
 
 
 def save_replay(prop, name, obj):
